@@ -16,6 +16,9 @@ def _example(repo, rel):
     return _example_cache[key]
 
 
+NAME_POOL = [b'DEPT', b'TIME', b'GR', b'TENS', b'CALI', b'RHOB', b'NPHI', b'SP', b'ILD', b'DT', b'TDEP', b'ETIM']
+
+
 def valid_sources(rng, fmt, n, small=True):
     """n Valid objects of the given provider format (convertible=True providers give log passes)."""
     provs = providers.available()
@@ -24,7 +27,7 @@ def valid_sources(rng, fmt, n, small=True):
     out = []
     for _ in range(n):
         try:
-            v = provs[fmt](rng, convertible=True)
+            v = provs[fmt](rng, convertible=True, name_pool=NAME_POOL) if fmt == 'rp66v1' else provs[fmt](rng, convertible=True)
         except TypeError:
             v = provs[fmt](rng)
         out.append(v)
@@ -112,8 +115,12 @@ def make_directory(rng, conv, tier):
     options = {
         'array_reduction': rng.choice(['first', 'first', 'mean', 'median', 'min', 'max']),
         'frame_slice': rng.choice([{}, {}, {'step': 2}, {'start': 1, 'stop': None, 'step': 3}, {'sample': 4}, {'stop': 5}]),
-        'channels': [],
+        # a non-empty subset is a *shared mutable set* inside the sequential driver: names come from the pool the RP66V1 files draw from
+        'channels': [] if rng.random() < 0.4 else sorted({nm.decode('ascii') for nm in rng.sample(NAME_POOL, rng.randrange(1, 5))} | ({'NOSUCH'} if rng.random() < 0.2 else set())),
         'field_width': rng.choice([16, 16, 12, 20]),
         'float_format': rng.choice(['.3f', '.3f', '.1f', '.6f']),
     }
+    if conv == 'lis':
+        # a non-empty channel subset makes every LIS conversion fail (finding F9c of C11): not counted twice
+        options['channels'] = []
     return {'files': ordered, 'options': options, 'placement': placement}
